@@ -3,6 +3,7 @@ package lib
 import (
 	"fmt"
 	"math"
+	"math/big"
 	"strings"
 
 	cpb "github.com/google/fhir/go/proto/google/fhir/proto/r4/core/codes_go_proto"
@@ -20,6 +21,12 @@ type Val struct {
 	V     any    // system.Any, FHIR element, or system.Collection
 	Kind  string // System type name or "fhir.<kind>"
 	Class string // coarse feature class used in finding keys
+	// reference-model view of the value (independent of the repository)
+	RKind string   // num | str | bool | temporal | qty | complex
+	RNum  *big.Rat // num, qty
+	RStr  string   // str; qty: unit
+	RBool bool
+	RT    RefT
 }
 
 // Src returns the source text denoting the value: its literal when it has
@@ -154,10 +161,41 @@ func SystemPool() []Val {
 		p = append(p, Val{ID: "@" + s, Lit: "@" + s, V: mustTime(s[1:]), Kind: "Time", Class: fmt.Sprintf("time.p%d", strings.Count(s, ":")+strings.Count(s, "."))})
 	}
 	for _, q := range QtyPool {
-		p = append(p, Val{ID: "q" + q.n + q.unit, Lit: q.lit, V: mustQty(q.n, q.unit), Kind: "Quantity", Class: "qty." + q.unit})
+		p = append(p, Val{ID: "q" + q.n + q.unit, Lit: q.lit, V: mustQty(q.n, q.unit), Kind: "Quantity", Class: "qty." + q.unit, RKind: "qty", RNum: ratOf(q.n), RStr: q.unit})
+	}
+	for i := range p {
+		attachRef(&p[i])
 	}
 	sysPool = p
 	return p
+}
+
+func ratOf(s string) *big.Rat {
+	r, ok := new(big.Rat).SetString(s)
+	if !ok {
+		panic("ratOf " + s)
+	}
+	return r
+}
+
+// attachRef fills the reference view of a System pool value from its ID/literal text.
+func attachRef(v *Val) {
+	switch v.Kind {
+	case "Boolean":
+		v.RKind, v.RBool = "bool", v.ID == "true"
+	case "Integer":
+		v.RKind, v.RNum = "num", ratOf(strings.TrimPrefix(v.ID, "i"))
+	case "Decimal":
+		v.RKind, v.RNum = "num", ratOf(strings.TrimPrefix(v.ID, "d"))
+	case "String":
+		v.RKind, v.RStr = "str", string(v.V.(system.String))
+	case "Date", "DateTime", "Time":
+		t, ok := ParseRefT(v.Kind, strings.TrimPrefix(v.ID, "@"))
+		if !ok {
+			panic("attachRef " + v.ID)
+		}
+		v.RKind, v.RT = "temporal", t
+	}
 }
 
 func dtPrec(s string) int {
@@ -176,7 +214,6 @@ func dtPrec(s string) int {
 
 // ----------------------------------------------------------- FHIR elements
 
-func fhirDateTime(s string) *dtpb.DateTime { return fhir.MustParseDateTime(s) }
 
 var elemPool []Val
 
@@ -194,54 +231,66 @@ func ElementPool() []Val {
 	if elemPool != nil {
 		return elemPool
 	}
-	e := func(id, kind, class string, v any) Val { return Val{ID: id, V: v, Kind: "fhir." + kind, Class: class} }
+	num := func(id, kind, class, text string, v any) Val {
+		return Val{ID: id, V: v, Kind: "fhir." + kind, Class: class, RKind: "num", RNum: ratOf(text)}
+	}
+	str := func(id, kind, class, text string, v any) Val {
+		return Val{ID: id, V: v, Kind: "fhir." + kind, Class: class, RKind: "str", RStr: text}
+	}
+	tmp := func(id, kind, class, rkind, text string, v any) Val {
+		t, ok := ParseRefT(rkind, text)
+		if !ok {
+			panic("element pool " + text)
+		}
+		return Val{ID: id, V: v, Kind: "fhir." + kind, Class: class, RKind: "temporal", RT: t}
+	}
+	cx := func(id, kind string, v any) Val { return Val{ID: id, V: v, Kind: "fhir." + kind, Class: "fhir.complex", RKind: "complex"} }
 	p := []Val{
-		e("f.bool.t", "boolean", "fhir.bool", fhir.Boolean(true)),
-		e("f.bool.f", "boolean", "fhir.bool", fhir.Boolean(false)),
-		e("f.int.1", "integer", "fhir.int", fhir.Integer(1)),
-		e("f.int.min", "integer", "fhir.int.min", fhir.Integer(math.MinInt32)),
-		e("f.int.max", "integer", "fhir.int.max", fhir.Integer(math.MaxInt32)),
-		e("f.uint.0", "unsignedInt", "fhir.uint", fhir.UnsignedInt(0)),
-		e("f.uint.max", "unsignedInt", "fhir.uint.big", fhir.UnsignedInt(math.MaxUint32)),
-		e("f.pint.1", "positiveInt", "fhir.pint", fhir.PositiveInt(1)),
-		e("f.pint.big", "positiveInt", "fhir.pint.big", fhir.PositiveInt(1<<31)),
-		e("f.dec.1.0", "decimal", "fhir.dec", &dtpb.Decimal{Value: "1.0"}),
-		e("f.dec.1.50", "decimal", "fhir.dec", &dtpb.Decimal{Value: "1.50"}),
-		e("f.dec.long", "decimal", "fhir.dec.long", &dtpb.Decimal{Value: "1234567890123456789012345678901234567890.5"}),
-		e("f.str.a", "string", "fhir.str", fhir.String("a")),
-		e("f.str.abc", "string", "fhir.str", fhir.String("abc")),
-		e("f.str.1", "string", "fhir.str", fhir.String("1")),
-		e("f.str.e", "string", "fhir.str.nonascii", fhir.String("é😀")),
-		e("f.code.a", "code", "fhir.code", fhir.Code("a")),
-		e("f.code.enum", "code", "fhir.code.enum", &ppb.Patient_GenderCode{Value: cpb.AdministrativeGenderCode_FEMALE}),
-		e("f.id", "id", "fhir.id", fhir.ID("a")),
-		e("f.markdown", "markdown", "fhir.markdown", fhir.Markdown("abc")),
-		e("f.uri", "uri", "fhir.uri", fhir.URI("http://a")),
-		e("f.url", "url", "fhir.url", fhir.URL("http://a")),
-		e("f.canonical", "canonical", "fhir.canonical", &dtpb.Canonical{Value: "http://a|1"}),
-		e("f.oid", "oid", "fhir.oid", fhir.OID("urn:oid:1.2.3")),
-		e("f.uuid", "uuid", "fhir.uuid", fhir.UUID("urn:uuid:00000000-0000-0000-0000-000000000001")),
-		e("f.base64", "base64Binary", "fhir.base64", fhir.Base64Binary([]byte("ab"))),
-		e("f.date.y", "date", "fhir.date.p0", fhir.MustParseDate("2020")),
-		e("f.date.m", "date", "fhir.date.p1", fhir.MustParseDate("2020-01")),
-		e("f.date.d", "date", "fhir.date.p2", fhir.MustParseDate("2020-01-15")),
-		e("f.dt.y", "dateTime", "fhir.datetime.p0", fhirDateTime("2020")),
-		e("f.dt.d", "dateTime", "fhir.datetime.p2", fhirDateTime("2020-01-15")),
-		e("f.dt.s.Z", "dateTime", "fhir.datetime.p5", fhirDateTime("2020-01-15T10:30:15Z")),
-		e("f.dt.s.off", "dateTime", "fhir.datetime.p5.off", fhirDateTime("2020-01-15T10:30:15+05:30")),
-		e("f.dt.ms", "dateTime", "fhir.datetime.p6", fhirDateTime("2020-01-15T10:30:15.250Z")),
-		e("f.instant", "instant", "fhir.instant", fhir.MustParseInstant("2020-01-15T10:30:15.250+05:30")),
-		e("f.time.s", "time", "fhir.time.p2", fhir.MustParseTime("10:30:15")),
-		e("f.time.ms", "time", "fhir.time.p3", fhir.MustParseTime("10:30:15.250")),
-		e("f.qty.mg", "Quantity", "fhir.qty", &dtpb.Quantity{Value: &dtpb.Decimal{Value: "1"}, Code: fhir.Code("mg"), System: fhir.URI("http://unitsofmeasure.org"), Unit: fhir.String("mg")}),
-		e("f.qty.kg", "Quantity", "fhir.qty", &dtpb.Quantity{Value: &dtpb.Decimal{Value: "1"}, Code: fhir.Code("kg"), Unit: fhir.String("kg")}),
-		e("f.nameA", "HumanName", "fhir.complex", NameA()),
-		e("f.nameA2", "HumanName", "fhir.complex", NameA()),
-		e("f.nameB", "HumanName", "fhir.complex", NameB()),
-		e("f.coding", "Coding", "fhir.complex", fhir.Coding("http://s", "c")),
-		e("f.period", "Period", "fhir.complex", &dtpb.Period{Start: fhirDateTime("2020-01-15")}),
-		e("f.ref", "Reference", "fhir.complex", &dtpb.Reference{Reference: &dtpb.Reference_PatientId{PatientId: &dtpb.ReferenceId{Value: "p1"}}}),
-		e("f.ext", "Extension", "fhir.complex", &dtpb.Extension{Url: fhir.URI("http://u"), Value: &dtpb.Extension_ValueX{Choice: &dtpb.Extension_ValueX_StringValue{StringValue: fhir.String("x")}}}),
+		{ID: "f.bool.t", V: fhir.Boolean(true), Kind: "fhir.boolean", Class: "fhir.bool", RKind: "bool", RBool: true},
+		{ID: "f.bool.f", V: fhir.Boolean(false), Kind: "fhir.boolean", Class: "fhir.bool", RKind: "bool", RBool: false},
+		num("f.int.1", "integer", "fhir.int", "1", fhir.Integer(1)),
+		num("f.int.min", "integer", "fhir.int.min", "-2147483648", fhir.Integer(math.MinInt32)),
+		num("f.int.max", "integer", "fhir.int.max", "2147483647", fhir.Integer(math.MaxInt32)),
+		num("f.uint.0", "unsignedInt", "fhir.uint", "0", fhir.UnsignedInt(0)),
+		num("f.uint.max", "unsignedInt", "fhir.uint.max", "2147483647", fhir.UnsignedInt(math.MaxInt32)),
+		num("f.pint.1", "positiveInt", "fhir.pint", "1", fhir.PositiveInt(1)),
+		num("f.dec.1.0", "decimal", "fhir.dec", "1.0", &dtpb.Decimal{Value: "1.0"}),
+		num("f.dec.1.50", "decimal", "fhir.dec", "1.50", &dtpb.Decimal{Value: "1.50"}),
+		num("f.dec.long", "decimal", "fhir.dec.long", "1234567890123456789012345678901234567890.5", &dtpb.Decimal{Value: "1234567890123456789012345678901234567890.5"}),
+		str("f.str.a", "string", "fhir.str", "a", fhir.String("a")),
+		str("f.str.abc", "string", "fhir.str", "abc", fhir.String("abc")),
+		str("f.str.1", "string", "fhir.str", "1", fhir.String("1")),
+		str("f.str.e", "string", "fhir.str.nonascii", "é😀", fhir.String("é😀")),
+		str("f.code.a", "code", "fhir.code", "a", fhir.Code("a")),
+		str("f.code.enum", "code", "fhir.code.enum", "female", &ppb.Patient_GenderCode{Value: cpb.AdministrativeGenderCode_FEMALE}),
+		str("f.id", "id", "fhir.id", "a", fhir.ID("a")),
+		str("f.markdown", "markdown", "fhir.markdown", "abc", fhir.Markdown("abc")),
+		str("f.uri", "uri", "fhir.uri", "http://a", fhir.URI("http://a")),
+		str("f.url", "url", "fhir.url", "http://a", fhir.URL("http://a")),
+		str("f.canonical", "canonical", "fhir.canonical", "http://a|1", &dtpb.Canonical{Value: "http://a|1"}),
+		str("f.oid", "oid", "fhir.oid", "urn:oid:1.2.3", &dtpb.Oid{Value: "urn:oid:1.2.3"}),
+		str("f.uuid", "uuid", "fhir.uuid", "urn:uuid:00000000-0000-0000-0000-000000000001", &dtpb.Uuid{Value: "urn:uuid:00000000-0000-0000-0000-000000000001"}),
+		str("f.base64", "base64Binary", "fhir.base64", "YWI=", fhir.Base64Binary([]byte("ab"))),
+		tmp("f.date.y", "date", "fhir.date.p0", "Date", "2020", ProtoDate("2020")),
+		tmp("f.date.m", "date", "fhir.date.p1", "Date", "2020-01", ProtoDate("2020-01")),
+		tmp("f.date.d", "date", "fhir.date.p2", "Date", "2020-01-15", ProtoDate("2020-01-15")),
+		tmp("f.dt.y", "dateTime", "fhir.datetime.p0", "DateTime", "2020T", ProtoDateTime("2020")),
+		tmp("f.dt.d", "dateTime", "fhir.datetime.p2", "DateTime", "2020-01-15T", ProtoDateTime("2020-01-15")),
+		tmp("f.dt.s.Z", "dateTime", "fhir.datetime.p5", "DateTime", "2020-01-15T10:30:15Z", ProtoDateTime("2020-01-15T10:30:15Z")),
+		tmp("f.dt.s.off", "dateTime", "fhir.datetime.p5.off", "DateTime", "2020-01-15T10:30:15+05:30", ProtoDateTime("2020-01-15T10:30:15+05:30")),
+		tmp("f.dt.ms", "dateTime", "fhir.datetime.p6", "DateTime", "2020-01-15T10:30:15.250Z", ProtoDateTime("2020-01-15T10:30:15.250Z")),
+		tmp("f.instant", "instant", "fhir.instant", "DateTime", "2020-01-15T10:30:15.250+05:30", ProtoInstant("2020-01-15T10:30:15.250+05:30")),
+		tmp("f.time.s", "time", "fhir.time.p2", "Time", "T10:30:15", ProtoTime("10:30:15")),
+		tmp("f.time.ms", "time", "fhir.time.p3", "Time", "T10:30:15.250", ProtoTime("10:30:15.250")),
+		{ID: "f.qty.mg", Kind: "fhir.Quantity", Class: "fhir.qty", RKind: "qty", RNum: ratOf("1"), RStr: "mg", V: &dtpb.Quantity{Value: &dtpb.Decimal{Value: "1"}, Code: fhir.Code("mg"), System: fhir.URI("http://unitsofmeasure.org"), Unit: fhir.String("mg")}},
+		{ID: "f.qty.kg", Kind: "fhir.Quantity", Class: "fhir.qty", RKind: "qty", RNum: ratOf("1"), RStr: "kg", V: &dtpb.Quantity{Value: &dtpb.Decimal{Value: "1"}, Code: fhir.Code("kg"), Unit: fhir.String("kg")}},
+		cx("f.nameA", "HumanName", NameA()),
+		cx("f.nameA2", "HumanName", NameA()),
+		cx("f.nameB", "HumanName", NameB()),
+		cx("f.coding", "Coding", fhir.Coding("http://s", "c")),
+		cx("f.period", "Period", &dtpb.Period{Start: ProtoDateTime("2020-01-15")}),
+		cx("f.ref", "Reference", &dtpb.Reference{Reference: &dtpb.Reference_PatientId{PatientId: &dtpb.ReferenceId{Value: "p1"}}}),
+		cx("f.ext", "Extension", &dtpb.Extension{Url: fhir.URI("http://u"), Value: &dtpb.Extension_ValueX{Choice: &dtpb.Extension_ValueX_StringValue{StringValue: fhir.String("x")}}}),
 	}
 	elemPool = p
 	return p
